@@ -450,6 +450,49 @@ def exact_multiple_rectangles(g, shard, res):
     return out
 
 
+def axis_touching_lots_with_zone(g, res):
+    """Lots with an edge or a vertex on the y-axis (x == 0 exactly), taller than wide or not, with one convex no-go zone strictly
+    inside, at rotations <= 0 and > 0: no borehole inside the zone, every borehole inside the lot."""
+    import ghedesigner.rowwise as rw
+
+    out = []
+    for _rep in range(6):
+        w_, h_ = float(round(g.uniform(30, 70), 1)), float(round(g.uniform(40, 140), 1))
+        kind = int(g.integers(0, 3))
+        if kind == 0:
+            poly = [(0.0, 0.0), (w_, 0.0), (w_, h_), (0.0, h_)]
+        elif kind == 1:
+            poly = [(0.0, float(round(0.2 * h_, 1))), (float(round(0.5 * w_, 1)), 0.0), (w_, float(round(0.3 * h_, 1))), (float(round(0.8 * w_, 1)), h_), (0.0, float(round(0.9 * h_, 1)))]
+        else:
+            poly = [(0.0, float(round(0.5 * h_, 1))), (float(round(0.6 * w_, 1)), 0.0), (w_, float(round(0.6 * h_, 1))), (float(round(0.4 * w_, 1)), h_)]
+        r_ = int(g.integers(0, len(poly)))
+        poly = poly[r_:] + poly[:r_]
+        s = float(round(g.uniform(6, 12), 1))
+        zone = GLOT.inner_convex(g, ccw(poly), margin=max(2.0, 0.3 * s), size_frac=(0.2, 0.45))
+        if not zone:
+            continue
+        for deg in (0.0, -20.0, -45.0, 30.0):
+            case = {"outline": poly, "spacing": s, "no_go": [zone], "rotation_deg": deg, "lane": "lot touching the y-axis with a no-go zone"}
+            try:
+                pb, ng = rw.gen_shape([list(p) for p in poly], [[list(p) for p in zone]])
+                pts = np.asarray(rw.gen_borehole_config(pb, s, s, no_go=ng, rotate=deg * DEG, intersection_tolerance=1e-5), dtype=float).reshape(-1, 2)
+            except Exception as e:  # noqa: BLE001
+                out.append({"mechanism": f"generation-raised:{type(e).__name__}", "message": str(e)[:150], "case": case})
+                continue
+            res["axis_touching_lots_with_zone"] = res.get("axis_touching_lots_with_zone", 0) + 1
+            if len(pts) == 0:
+                continue
+            sz = signed_inside_distance(ccw(zone), pts)
+            if sz.max() > 2e-5:
+                k = int(sz.argmax())
+                out.append({"mechanism": "borehole-inside-no-go-zone", "message": f"{tuple(pts[k])} lies {sz.max():.3g} m inside the no-go zone (lot touching the y-axis, rotation {deg} deg)", "case": case})
+            sd = signed_inside_distance(ccw(poly), pts)
+            if sd.min() < -2e-5:
+                k = int(sd.argmin())
+                out.append({"mechanism": "borehole-outside-outline", "message": f"{tuple(pts[k])} lies {-sd.min():.3g} m outside the outline (lot touching the y-axis, rotation {deg} deg)", "case": case})
+    return out
+
+
 def run_shard(spec):
     g = rng(spec["seed"], PROP, spec["shard"])
     budget = StepBudget()
@@ -475,6 +518,8 @@ def run_shard(spec):
         # (the random stream of the lots above is left as it was: this lane draws from its own generator)
         for _rep in range(max(1, spec["n"] // 24)):
             res["viol"].extend(exact_multiple_rectangles(rng(spec["seed"], PROP + "-exact-rect", spec["shard"] * 1000 + _rep), spec["shard"], res)[:4])
+        for _rep in range(max(1, spec["n"] // 24)):
+            res["viol"].extend(axis_touching_lots_with_zone(rng(spec["seed"], PROP + "-axis-zone", spec["shard"] * 1000 + _rep), res)[:4])
     finally:
         res["line_events"] = budget.total
         res["gen_hits"] = tap.hits
@@ -505,7 +550,7 @@ def check(tier, seed):
             continue
         rep.evaluations += r["cases"]
         ok_mon = ok_mon and r["monitoring"]
-        for k in ("skipped_degenerate", "translations", "rectangles", "rect_near_tie_skipped", "line_events", "gen_hits", "perimeter", "nogo", "multi_nogo", "paired_narrow_nogo", "exact_multiple_rectangles"):
+        for k in ("skipped_degenerate", "translations", "rectangles", "rect_near_tie_skipped", "line_events", "gen_hits", "perimeter", "nogo", "multi_nogo", "paired_narrow_nogo", "exact_multiple_rectangles", "axis_touching_lots_with_zone"):
             rep.count(k, r.get(k, 0))
         rep.count("whole_number_outlines_passed_as_ints", r.get("int_outlines", 0))
         rep.count("translation_clause_skipped_for_whole_number_polygons", r.get("translation_skipped_whole_number_polygon", 0))
